@@ -95,8 +95,8 @@ def _mk_mw(i, mask, asgi):
 _APPS = {}
 
 
-def _build(masks, independent, asgi, nbefore, nafter):
-    key = (tuple(masks), independent, asgi, nbefore, nafter)
+def _build(masks, independent, asgi, nbefore, nafter, placement=0):
+    key = (tuple(masks), independent, asgi, nbefore, nafter, placement)
     if key in _APPS:
         return _APPS[key]
     with notrace():
@@ -150,11 +150,22 @@ def _build(masks, independent, asgi, nbefore, nafter):
                 resp.status = 299
         fn = on_get
         # decorators apply bottom-up: the LAST listed before hook runs first ... so wrap explicitly in order
-        for k in range(nafter):
-            fn = falcon.after([after0, after1][k])(fn)
-        for k in reversed(range(nbefore)):
-            fn = falcon.before([before0, before1][k])(fn)
-        Res = type('Res', (), {'on_get': fn})
+        # placement 0: hooks on the responder method; 1: the same hooks as class decorators on the class that defines the
+        # responder; 2: as class decorators on a subclass that only inherits the responder
+        if placement == 0:
+            for k in range(nafter):
+                fn = falcon.after([after0, after1][k])(fn)
+            for k in reversed(range(nbefore)):
+                fn = falcon.before([before0, before1][k])(fn)
+            Res = type('Res', (), {'on_get': fn})
+        else:
+            Res = type('Res', (), {'on_get': fn})
+            if placement == 2:
+                Res = type('SubRes', (Res,), {})
+            for k in range(nafter):
+                Res = falcon.after([after0, after1][k])(Res)
+            for k in reversed(range(nbefore)):
+                Res = falcon.before([before0, before1][k])(Res)
         app = (falcon.asgi.App if asgi else falcon.App)(middleware=[_mk_mw(i, m, asgi) for i, m in enumerate(masks)],
                                                           independent_middleware=independent)
         app.add_error_handler(AppErr, handler)
@@ -271,9 +282,9 @@ def oracle(acts, masks, independent, routed, nbefore, nafter):
 SITES2 = [('req', 0), ('rsrc', 0), ('resp', 0), ('req', 1), ('rsrc', 1), ('resp', 1)]
 
 
-def stack_case(asgi, masks, independent, routed, nbefore, nafter, codes, hook_codes):
+def stack_case(asgi, masks, independent, routed, nbefore, nafter, codes, hook_codes, placement=0):
     """codes: action per middleware site in order (req_i, rsrc_i, resp_i)*; hook_codes: before*, responder, after*"""
-    app = _build(masks, independent, asgi, nbefore, nafter)
+    app = _build(masks, independent, asgi, nbefore, nafter, placement)
     acts = {}
     n = len(masks)
     k = 0
@@ -393,7 +404,7 @@ def lifespan_case(masks, fail_start, fail_stop, do_shutdown):
 
 
 # ---------------------------------------------------------------- partitions
-def _stack_part(asgi, masks, independent, routed, nb, na, timeout):
+def _stack_part(asgi, masks, independent, routed, nb, na, timeout, placement=0):
     n = len(masks)
     ncodes = 3 * n
     nh = nb + 1 + na
@@ -404,16 +415,18 @@ def h(%s) -> int:
     """
 %s    post: _ != 0
     """
-    return stack_case(%d, %r, %r, %r, %d, %d, [%s], [%s])
+    return stack_case(%d, %r, %r, %r, %d, %d, [%s], [%s], %d)
 ''' % (args, pre, asgi, tuple(masks), independent, routed, nb, na, ', '.join('c%d' % i for i in range(ncodes)),
-       ', '.join('k%d' % i for i in range(nh)))
-    return {'name': 'stack_%s_m%s_%s_%s_b%da%d' % ('asgi' if asgi else 'wsgi', ''.join(map(str, masks)), 'ind' if independent else 'dep',
-                                                  'routed' if routed else 'unrouted', nb, na),
+       ', '.join('k%d' % i for i in range(nh)), placement)
+    return {'name': 'stack_%s_m%s_%s_%s_b%da%d%s' % ('asgi' if asgi else 'wsgi', ''.join(map(str, masks)), 'ind' if independent else 'dep',
+                                                    'routed' if routed else 'unrouted', nb, na, ['', '_clshook', '_subclshook'][placement]),
             'fn': 'h', 'src': src, 'timeout': timeout,
             'bounds': '%s app, %d middleware components implementing the method subsets %r (bit0 request, bit1 resource, bit2 response), '
-                      'independent_middleware=%r, %s request, %d before / %d after hooks; one action code in {return, complete, raise '
+                      'independent_middleware=%r, %s request, %d before / %d after hooks (%s); one action code in {return, complete, raise '
                       'HTTPError, raise handled application error} per call site, all symbolic' % (
-                          'ASGI' if asgi else 'WSGI', n, tuple(masks), independent, 'routed' if routed else 'unrouted', nb, na)}
+                          'ASGI' if asgi else 'WSGI', n, tuple(masks), independent, 'routed' if routed else 'unrouted', nb, na,
+                          ['on the responder method', 'as class decorators on the defining class',
+                           'as class decorators on a subclass that inherits the responder'][placement])}
 
 
 def partitions(tier, seed):
@@ -430,6 +443,8 @@ def partitions(tier, seed):
         for asgi in (0, 1):
             P.append(_stack_part(asgi, (7, 7), bool(asgi), False, 1, 1, 120))
             P.append(_stack_part(asgi, (5, 7), not bool(asgi), True, 2, 2, 200))
+            P.append(_stack_part(asgi, (4,), True, True, 2, 1, 120, 1 + asgi))
+            P.append(_stack_part(asgi, (4,), True, True, 1, 2, 120, 2 - asgi))
     else:
         for m0 in range(1, 8):
             for m1 in range(1, 8):
@@ -442,6 +457,8 @@ def partitions(tier, seed):
                 P.append(_stack_part(asgi, (7, 7), independent, True, 2, 2, 900))
                 P.append(_stack_part(asgi, (7, 7, 7), independent, True, 1, 1, 1500))
                 P.append(_stack_part(asgi, (5, 7, 3), independent, True, 0, 0, 1500))
+                for placement in (1, 2):
+                    P.append(_stack_part(asgi, (7,), independent, True, 2, 2, 300, placement))
     ls = [(3, 3), (1, 2), (3, 1, 2)] if q else [(a, b, c) for a in range(1, 4) for b in range(1, 4) for c in range(1, 4)]  # 0 = no method: falcon rejects such a component
     for masks in ls:
         src = '''
